@@ -5,6 +5,7 @@ import (
 	"context"
 	"net/http"
 	"strings"
+	"sync"
 
 	"code.gopub.tech/tpl/types"
 )
@@ -72,6 +73,7 @@ func WithHotReload(hotReload bool) NewHTMLRenderOpt {
 type htmlRender struct {
 	hotReload bool
 	builder   types.Factory
+	mu        sync.RWMutex // 保护 manager: Reload 可以和正在处理的请求并发
 	manager   types.TemplateManager
 }
 
@@ -82,7 +84,9 @@ func (h *htmlRender) Reload(ctx context.Context) error {
 	if err != nil {
 		return err
 	}
+	h.mu.Lock()
 	h.manager = m
+	h.mu.Unlock()
 	return nil
 }
 
@@ -104,10 +108,12 @@ func (h *htmlRender) Instance(ctx context.Context, tplName string, data any) typ
 // GetTemplate implements types.HTMLRender.
 // 获取一个模板实例.
 func (h *htmlRender) GetTemplate(ctx context.Context, tplName string) (types.Template, error) {
+	h.mu.RLock()
 	var (
 		m   = h.manager
 		err error
 	)
+	h.mu.RUnlock()
 	if h.hotReload {
 		m, err = h.builder(ctx)
 	}
